@@ -142,10 +142,14 @@ class Token(str):
         if self.is_space():
             return True
 
-        for ws in reversed(self.grammar.whitespace):
-            temp = self.replace(ws, " ")
+        # Several comments separated by white space, where white space
+        # is what the grammar says it is (str.split() with no argument
+        # would also split on characters like U+00A0 or U+001C).
+        temp = self
+        for ws in self.grammar.whitespace:
+            temp = temp.replace(ws, " ")
 
-        return all(t.is_comment() for t in temp.split())
+        return all(t.is_comment() for t in temp.split(" ") if t != "")
 
     def is_comment(self) -> bool:
         """Return true if the Token is a comment according to the
